@@ -84,7 +84,7 @@ def memoStep (st : MState (List Val × Args)) (tok : String) : MState (List Val 
     | some src, some site =>
       match copySites[site]? with
       | some cs =>
-        let id := copyTarget st.heap src cs.kind
+        let id := copyTargetS st src cs.kind
         ((stepM memoSites (freeBody memoSites) st (.copy src cs.kind)).1, s!"id={id}")
       | none => (st, "bad-op")
     | _, _ => (st, "bad-op")
@@ -114,11 +114,41 @@ def memoStep (st : MState (List Val × Args)) (tok : String) : MState (List Val 
     | _, _ => (st, "bad-op")
   | _ => (st, "bad-op")
 
+/-- object references in the tokens are *handles*: the k-th `new`/`copy` token defines handle k
+    (two handles may denote one object when a copy site hands out a kept object) -/
 def memoRun (toks : List String) : String :=
-  let r := toks.foldl (fun (acc : MState (List Val × Args) × List String) tok =>
-    let (st', out) := memoStep acc.1 tok
-    (st', acc.2 ++ [out])) (initM, [])
-  ";".intercalate r.2
+  let r := toks.foldl (fun (acc : MState (List Val × Args) × List Nat × List String) tok =>
+    let (st, handles, outs) := acc
+    let obj (h : String) : String := match h.toNat? with
+      | some h => toString (handles.getD h 1000000)
+      | none => "x"
+    let tok' := match words tok with
+      | ["copy", src, site] => s!"copy {obj src} {site}"
+      | ["set", i, a, v] => s!"set {obj i} {a} {v}"
+      | ["eval", i, m, xs] => s!"eval {obj i} {m} {xs}"
+      | _ => tok
+    let (st', out) := memoStep st tok'
+    let handles' := if out.startsWith "id=" then
+        handles ++ [((out.drop 3).toNat?).getD 1000000] else handles
+    (st', handles', outs ++ [out])) (initM, [], [])
+  ";".intercalate r.2.2
+
+/-! `derived <site> init;mut 5;init`: the source value the attribute was computed from, per init -/
+def derivedRun (site : Nat) (toks : List String) : String :=
+  match derivedStores[site]? with
+  | none => "bad-op"
+  | some s =>
+    let r := toks.foldl (fun (acc : DState Val × List String) tok =>
+      match words tok with
+      | ["init"] =>
+        let st' := stepD s.guard (fun v => v) acc.1 .init
+        (st', acc.2 ++ [toString (st'.derived.getD 0)])
+      | ["mut", v] =>
+        match v.toInt? with
+        | some v => (stepD s.guard (fun v => v) acc.1 (.mutate v), acc.2 ++ ["ok"])
+        | none => (acc.1, acc.2 ++ ["bad-op"])
+      | _ => (acc.1, acc.2 ++ ["bad-op"])) ({ source := 1, derived := none }, [])
+    ";".intercalate r.2
 
 def tables : String :=
   let ms := memoSites.map (fun s =>
@@ -131,6 +161,8 @@ def tables : String :=
     s!"{s.func}:{match s.kind with | .fresh => "fresh" | .cached => "cached" | .constant => "constant" | .argument => "argument"}:ok={returnOK s}")
   " ".intercalate ms ++ " || " ++ " ".intercalate cs ++ " || " ++ " ".intercalate as
     ++ " || " ++ " ".intercalate gs ++ " || " ++ " ".intercalate rs
+    ++ " || " ++ " ".intercalate (derivedStores.map (fun s =>
+      s!"{s.func}:{s.attr}:{match s.guard with | .always => "always" | .onlyIfUnset => "onlyIfUnset"}:ok={derivedOK s}"))
 
 /-! `ret <site> call;write 0 9;call`: per call `value@buffer` -/
 def retRun (site : Nat) (toks : List String) : String :=
@@ -192,6 +224,10 @@ def step (line : String) : String :=
     | some idx, some sh, some st, some vals => siteOp idx (w == "1") sh st vals (parsePars pars)
     | _, _, _, _ => "bad-op"
   | "memo" :: rest => memoRun ((" ".intercalate rest).splitOn ";")
+  | "derived" :: site :: rest =>
+    match site.toNat? with
+    | some site => derivedRun site ((" ".intercalate rest).splitOn ";")
+    | none => "bad-op"
   | "ret" :: site :: rest =>
     match site.toNat? with
     | some site => retRun site ((" ".intercalate rest).splitOn ";")
